@@ -43,6 +43,12 @@ def one_run(item):
     from src.optimizer.parameters import Parameters
     from src.scenarios.run_scenario import ScenarioRunner
     rec = {"iso3": item["iso3"], "option": item["option"]}
+    try:
+        import copy
+        eff = ScenarioRunner().alter_scenario_if_known_to_fail(copy.deepcopy(item["option"]), item["iso3"])
+        rec["effective_shutoff"] = eff.get("shutoff") if isinstance(eff, dict) else item["option"].get("shutoff")
+    except BaseException:  # noqa
+        rec["effective_shutoff"] = item["option"].get("shutoff")
     o_first = Parameters.compute_parameters_first_round
     o_r1 = ScenarioRunner.run_round_1
     o_third = Parameters.compute_parameters_third_round
